@@ -1,6 +1,7 @@
 mod algebra;
 mod marker;
 mod names;
+mod pyver;
 mod util;
 
 fn main() {
@@ -14,6 +15,7 @@ fn main() {
     match suite.as_str() {
         "names" => names::run(&mut out, tier, seed),
         "algebra" => algebra::run(&mut out, tier, seed, &args[5]),
+        "pyver" => pyver::run(&mut out, tier, seed, &args[5]),
         "name1" => names::one(&mut out, &util::unhex(&args[5])),
         _ => {
             eprintln!("unknown suite {suite}");
